@@ -78,6 +78,12 @@ func c18Values() []c18Value {
 		add("Certificate(constructed)", c2, err)
 		kc, _, err := key_certificate.NewKeyCertificate(id.Bytes[384:])
 		add("KeyCertificate(parsed)", kc, err)
+		// key certificates declaring type codes the tables do not know (experimental / not yet assigned): every lookup
+		// takes its "unknown" branch, which must be as free of shared state as the table hit
+		for i, raw := range [][]byte{{5, 0, 4, 0xff, 0x00, 0x00, 0x0c}, {5, 0, 4, 0x00, 0x0d, 0xff, 0x01}, {5, 0, 4, 0x00, 0x07, 0x00, 0x0e}} {
+			ku, _, err := key_certificate.NewKeyCertificate(raw)
+			add(fmt.Sprintf("KeyCertificate(parsed, unassigned type codes #%d)", i), ku, err)
+		}
 		k, _, err := keys_and_cert.ReadKeysAndCert(id.Bytes)
 		add("KeysAndCert(parsed)", k, err)
 		d, _, err := destination.ReadDestination(id.Bytes)
